@@ -9,9 +9,11 @@ func init() {
 			var js []Job
 			for neg := 0; neg <= 1; neg++ {
 				js = append(js, Job{Dir: "smpp", Harness: "VH_C19_relative", Params: map[string]int{"durneg": neg, "whole": 1}, Timeout: 15 * time.Minute})
+				js = append(js, Job{Dir: "smpp", Harness: "VH_C19_relative", Params: map[string]int{"durneg": neg, "whole": 0}, Timeout: 15 * time.Minute})
 				js = append(js, Job{Dir: "smpp", Harness: "VH_C19_absolute", Params: map[string]int{"durneg": neg, "whole": 0}})
 			}
-			js = append(js, Job{Dir: "smpp", Harness: "VH_C19_relative_fn", Timeout: 15 * time.Minute})
+			js = append(js, Job{Dir: "smpp", Harness: "VH_C19_relative_fn", Params: map[string]int{"whole": 1}, Timeout: 15 * time.Minute})
+			js = append(js, Job{Dir: "smpp", Harness: "VH_C19_relative_fn", Params: map[string]int{"whole": 0}, Timeout: 15 * time.Minute})
 			// the float64 contract on the real time SSA (cvc5: z3 does not finish these)
 			for which := 0; which < 4; which++ {
 				md := 31
